@@ -58,7 +58,7 @@ const defectEvery = 80
 const valuesPerCase = 3
 
 func (check) Rule() string {
-	return "per case one struct type and 3 values of it (thorough: 4 consecutive cases share the type, so the runtime's permanent reflect.StructOf cache stays small): a reflect.StructOf struct of 1-6 fields, depth <= 3, over bool, all int/uint/float kinds and uintptr, string, time.Duration, *regexp.Regexp and regexp.Regexp by value, pointers and chains of 2-4 pointers (to structs too; as fields, elements and map values; the extra levels do not use up depth), slices, arrays [1..3]T, map[string]T, interface{}, nested structs by value/pointer/in collections, hand-written named types (Level string, Count int32, Ratio float64, Flag bool, Octets []uint8, Labels map[string]string, structs Endpoint/Hidden/Mixed/Opaque/Wrapped with tags, embedded and unexported fields); tags: none, rename (one in four to an unusual name, unique at its level: \"-\", \"--\", \"_\", \"*\", punctuation, blanks, \"${a}\", upper case, Cyrillic, the option words inline/ignore/squash/merge/replace/append as names), dotted (shared parents, prefix-free, unusual leaf names too), ignore (also on chan/func/map[int]/complex fields), inline/squash on struct fields (own names disjoint from the siblings'; one in five through a pointer or two, nil or not), inline map - or pointer to map - as the only transported field, one slice or array tagged inline per namespace, two pointer fields renamed to the same name (one of them always nil), merge-option tags, foreign tag keys; one namespace spelled by 2-3 fields of one struct at any nesting level (about every 11th field starts such a group: struct fields by value or pointer with the same renamed or lower-cased name, the same wrapped in an inline struct, dotted names leading into the namespace - also one that is itself a struct -, [L]struct fields of one length plus dotted names through an index; the spellings come in random order, define disjoint settings and share 0-2 sub-namespaces that are spelled the same way again, up to 3 levels); values: zero, extreme and random numbers, NaN/Inf/-0, durations incl. Min/MaxInt64, regexps, strings with $ . , braces, nil/empty/filled collections, nil pointers and chains ending in nil outside collections. Each value enters as NewFrom(v), NewFrom(&v) or New().Merge(v) and is round-tripped with PathSep(\".\") and, if the type has no dotted tag name, without it; the zero value of every type is round-tripped too. Every 80th type deliberately contains one legal shape with a known or former defect (in turn: inline map next to named fields; non-nil *[N]T; *map as list/map element; map keyed by a named string type; a hand-written named pointer type NPInt *int, NPEndpoint *Endpoint, NPList *[]string, NPMap *map[string]int, NPBytes **uint8 as field, behind a pointer, as element or map value - Unpack into those runs under an allocation bound). One in five pointer spellings of a shared namespace is nil. Map keys contain the separator one time in eight if the type has no dotted name (the value is then round-tripped without PathSep only). Each case also hands one small struct holding a kind without configuration form (complex64/128, chan, func; as field, behind a pointer, in a slice, array, map, nested struct or interface) to NewFrom and, if accepted, to Unpack: no panic, nothing else claimed. Non-trivial = the type transports >= 3 fields (nested ones counted) or >= 1 container; distinct = distinct (type, value) text."
+	return "per case one struct type and 3 values of it (thorough: 4 consecutive cases share the type, so the runtime's permanent reflect.StructOf cache stays small): a reflect.StructOf struct of 1-6 fields, depth <= 3, over bool, all int/uint/float kinds and uintptr, string, time.Duration, *regexp.Regexp and regexp.Regexp by value, pointers and chains of 2-4 pointers (to structs too; as fields, elements and map values; the extra levels do not use up depth), slices, arrays [1..3]T, map[string]T, interface{}, nested structs by value/pointer/in collections, hand-written named types (Level string, Count int32, Ratio float64, Flag bool, Octets []uint8, Labels map[string]string, structs Endpoint/Hidden/Mixed/Opaque/Wrapped with tags, embedded and unexported fields); tags: none, rename (one in four to an unusual name, unique at its level: \"-\", \"--\", \"_\", \"*\", punctuation, blanks, \"${a}\", upper case, Cyrillic, the option words inline/ignore/squash/merge/replace/append as names), dotted (shared parents, prefix-free, unusual leaf names too), ignore (also on chan/func/map[int]/complex fields), inline/squash on struct fields (own names disjoint from the siblings'; one in five through a pointer or two, nil or not), inline map - or pointer to map - as the only transported field, one slice or array tagged inline per namespace, two pointer fields renamed to the same name (one of them always nil), merge-option tags, foreign tag keys; one namespace spelled by 2-3 fields of one struct at any nesting level (about every 11th field starts such a group: struct fields by value or pointer with the same renamed or lower-cased name, the same wrapped in an inline struct, dotted names leading into the namespace - also one that is itself a struct -, [L]struct fields of one length plus dotted names through an index; the spellings come in random order, define disjoint settings and share 0-2 sub-namespaces that are spelled the same way again, up to 3 levels); values: zero, extreme and random numbers, NaN/Inf/-0, durations incl. Min/MaxInt64, regexps, strings with $ . , braces, nil/empty/filled collections, nil pointers and chains ending in nil outside collections. Each value enters as NewFrom(v), NewFrom(&v) or New().Merge(v) and is round-tripped with PathSep(\".\") and, if the type has no dotted tag name, without it; the zero value of every type is round-tripped too. Every 80th type deliberately contains one legal shape with a known or former defect (in turn: inline map next to named fields; non-nil *[N]T; *map as list/map element; map keyed by a named string type; a hand-written named pointer type NPInt *int, NPEndpoint *Endpoint, NPHidden *Hidden, NPList *[]string, NPMap *map[string]int, NPBytes **uint8 as field, behind a pointer, as element or map value - Unpack into those runs under an allocation bound). The same named pointer types are ordinary leaf types too (about every 50th type drawn, half of them pointing to a struct), and every fifth pointer type drawn points - through one to three levels - to one of them; those are unpacked without the bound. One in five pointer spellings of a shared namespace is nil. Map keys contain the separator one time in eight if the type has no dotted name (the value is then round-tripped without PathSep only). Each case also hands one small struct holding a kind without configuration form (complex64/128, chan, func; as field, behind a pointer, in a slice, array, map, nested struct or interface) to NewFrom and, if accepted, to Unpack: no panic, nothing else claimed. Non-trivial = the type transports >= 3 fields (nested ones counted) or >= 1 container; distinct = distinct (type, value) text."
 }
 
 func (check) Assumptions() []string {
@@ -330,16 +330,24 @@ func (g *tgen) genType(depth, pos int) reflect.Type {
 	case k < 5:
 		return g.prim()
 	case k == 5:
-		switch x := r.Intn(len(namedLeaf) + 2); {
+		switch x := r.Intn(len(namedLeaf) + 4); {
 		case x == len(namedLeaf):
 			return tUintptr // an unsigned integer kind like the others
 		case x == len(namedLeaf)+1:
 			return tRegexpV // a regular expression held by value
+		case x >= len(namedLeaf)+2:
+			g.shape("named-pointer-type")
+			return g.namedPtr() // type P *T: kind Ptr, like *T
 		default:
 			return namedLeaf[x]
 		}
 	case k == 6:
 		et := g.genType(depth-1, posPtr)
+		if r.Intn(5) == 0 {
+			// a pointer (or two, below) to a named pointer type
+			g.shape("pointer-to-named-pointer-type")
+			et = g.namedPtr()
+		}
 		if et.Kind() == reflect.Interface {
 			return et // pointers to interfaces belong to C07
 		}
@@ -404,6 +412,15 @@ func (g *tgen) elemType(depth, pos int) reflect.Type {
 		t = reflect.PtrTo(t)
 	}
 	return t
+}
+
+// namedPtr draws a hand-written named pointer type, those pointing to a
+// struct half of the time (what Unpack builds for them is a pointer already).
+func (g *tgen) namedPtr() reflect.Type {
+	if g.r.Intn(2) == 0 {
+		return namedStructPtrs[g.r.Intn(len(namedStructPtrs))]
+	}
+	return namedPtrs[g.r.Intn(len(namedPtrs))]
 }
 
 // mapHolder: a struct whose only transported field is an inline map.
@@ -2250,6 +2267,10 @@ func (check) Run(seed int64, tier string, idx int, verbose bool) harness.Result 
 		{"inline_list", fieldHas(T, isInlineKind(reflect.Slice, reflect.Array), 0)},
 		{"same_name_fields", fieldHas(T, func(f reflect.StructField, _ tagInfo) bool { return f.Tag.Get(spellKey) == "twin-nil" }, 0)},
 		{"named_pointer_type", typeHas(T, isNamedPtr, 0)},
+		{"pointer_to_named_pointer_type", typeHas(T, func(t reflect.Type) bool { return t.Kind() == reflect.Ptr && isNamedPtr(t.Elem()) }, 0)},
+		{"pointer_to_named_pointer_to_struct", typeHas(T, func(t reflect.Type) bool {
+			return t.Kind() == reflect.Ptr && isNamedPtr(t.Elem()) && t.Elem().Elem().Kind() == reflect.Struct
+		}, 0)},
 	} {
 		if d.has {
 			res.Ev("cases_with_"+d.name, 1)
@@ -2434,6 +2455,11 @@ func roundTrip(res *harness.R, T reflect.Type, v reflect.Value, sep bool, entry 
 	}
 	if typeHas(T, isNamedPtr, 0) {
 		res.Ev("unpacks_into_named_pointer_types", 1)
+	}
+	if dx, ok := T.FieldByName("Dx"); ok && typeHas(dx.Type, isNamedPtr, 0) {
+		// the every-80th rotation keeps the allocation bound; everywhere else
+		// a runaway Unpack is left to the worker's address space limit
+		res.Ev("unpacks_under_allocation_bound", 1)
 		guardAlloc("unpack-into-named-pointer-type-allocates-without-bound", witness(), unpack)
 	} else {
 		unpack()
